@@ -124,10 +124,7 @@ func Snap(v avfs.VFS, root string, o SnapOpts) *Snapshot {
 				}
 			}
 			prev = name
-			cp := p + "/" + name
-			if p == "/" {
-				cp = "/" + name
-			}
+			cp := v.Join(p, name)
 			if skip[cp] {
 				continue
 			}
